@@ -17,15 +17,28 @@ warnings.filterwarnings("ignore")
 from twisted.conch.ssh import transport  # noqa: E402
 from twisted.internet.testing import StringTransport  # noqa: E402
 
-HEADLINE = "TwistedProps.C35.payloads_delivered_in_order_any_segmentation / tamper_never_delivered"
+HEADLINE = ("TwistedProps.C35.payloads_delivered_in_order_any_segmentation / tamper_never_delivered / "
+            "held_back_payloads_keep_their_order / rekey_stream_delivered_any_segmentation_partial")
 RULE = ("cipher x MAC x compression cycled over everything SSHTransportBase offers (+ none), 0..6 messages with sizes at "
         "0,1,block-size boundaries and up to a few KB (one pair at the 2^20 packet limit), start sequence numbers at 0 and "
         "around 2^32, identification = 0..3 banner lines (with 'SSH' inside, CRLF/LF, total up to the 4096 limit) + version line; "
         "segmentations: one piece, bytewise, random, cuts at line/packet/first-block boundaries +-1; optional single-byte "
         "alteration at a random/structured offset; distinct = (cipher kind, mac, comp, ident shape, segmentation style, tamper "
-        "region, outcome)")
+        "region, outcome).  Two cases in five are HISTORIES of the sending transport: sendPacket calls (types held back during key "
+        "exchange and types allowed then) interleaved with 1..3 key exchanges started by this side (sendKexInit) or by the peer "
+        "(real ssh_KEXINIT negotiating that round's cipher/MAC/compression), _keySetup (our NEWKEYS) and the peer's NEWKEYS in "
+        "either order (client), 0..3 payloads in flight at every stage, first key exchange from `none`, histories ending inside an "
+        "exchange, sendKexInit during an exchange; the receiver switches by its own real ssh_KEXINIT/_keySetup/ssh_NEWKEYS; same "
+        "segmentations and alterations; distinct adds (role, kex op sequence, max payloads held back, open/closed)")
 ASSUMES = [
-    "no key exchange in progress (_keyExchangeState is _KEY_EXCHANGE_NONE: sendPacket never queues); keys are injected as test_transport does",
+    "key exchange: the negotiation and the queueing/flush state machine run for real (sendKexInit, ssh_KEXINIT, _keySetup, ssh_NEWKEYS, "
+    "_newKeys); the key exchange METHOD (DH/ECDH messages, host key signature) is replaced by a shared secret handed to _keySetup on both "
+    "sides; the peer's KEXINIT/NEWKEYS reach the sender as direct calls of its handlers (its receiving direction is not part of the run); "
+    "the application never sends KEXINIT/NEWKEYS itself",
+    "Lean: the subclass glue (client postponing an early NEWKEYS, server EXT_INFO) is not modelled as such — the model is given the "
+    "sequence of base-class calls the real subclass code made; the end-to-end theorem over histories is PARTIAL (see "
+    "rekey_stream_delivered_any_segmentation_partial): sender order and receiver across NEWKEYS are proved separately, the lemma that a "
+    "conforming history's packets form a receiver chain is exercised by the tie only; tampering across a key exchange is oracle + tie only",
     "cipher/MAC/zlib are parameters: dec inverts enc block-aligned and splits over block-aligned concatenation, verify accepts makeMAC, "
     "decompress inverts compress+Z_SYNC_FLUSH; tamper theorem: symbolic unforgeability (for the packet's sequence number verify accepts only "
     "the sender's (packet, tag)) and decrypt injective per state",
@@ -44,7 +57,13 @@ MANIFEST = {
             "(hypotheses, incl. symbolic MAC unforgeability).  The model is tied to transport.py by replaying recorded real "
             "crypto/zlib answers for every cipher x MAC x compression.",
     "note": "trusts Lean kernel, the hand-written model (differentially tied on wire bytes, call order into crypto, dispatched payloads, "
-            "disconnects), cryptography/hmac/zlib contracts; key exchange not modelled",
+            "disconnects), cryptography/hmac/zlib contracts.  Key (re-)exchange: TwistedModel/Ssh/Rekey.lean models the queueing in front of "
+            "sendPacket, sendKexInit, the state step of ssh_KEXINIT, _keySetup's NEWKEYS, _newKeys (both directions) — tied on histories; "
+            "proved: for EVERY history the payloads that may not be sent during key exchange reach the wire in the order of the sendPacket "
+            "calls, none lost/duplicated (held_back_payloads_keep_their_order), _newKeys sends the whole queue front to back with the new "
+            "algorithms (new_keys_sends_held_back_in_order), and a receiver switching algorithms at each dispatched NEWKEYS delivers any "
+            "chain of honest packets exactly, under any segmentation (rekey_stream_delivered_any_segmentation_partial; partial: the "
+            "sender-chain lemma and the identification phase in front are tie-only); key exchange methods not modelled",
     "technique": "Lean 4 proof (receiver invariant over arbitrary segmentations, frame chain induction) + scripted-crypto differential tie",
     "design_ref": "DESIGN.md §7 C35",
 }
@@ -139,6 +158,12 @@ def _execute(c):
     key = repr(sorted(c.items()))
     if key in _CACHE:
         return _CACHE[key]
+    if "hist" in c:
+        res = _execute_hist(c)
+        if len(_CACHE) > 64:
+            _CACHE.clear()
+        _CACHE[key] = res
+        return res
     rec = {"enc": [], "mac": [], "comp": [], "dec": [], "ver": [], "decomp": [], "pads": [], "pkts": []}
     res = {"exc": None, "rec": rec}
     prng = random.Random(c.get("padseed", 0))
@@ -262,6 +287,374 @@ def _execute(c):
     return res
 
 
+
+# ------------------------------------------------------------------------------------------------
+# histories: key (re-)exchange on the sending side while the application keeps sending
+#
+# case["hist"] is a list of things that happen to the SENDING transport, in order:
+#   ["s", type, hex]  the application (or a service) calls sendPacket(type, data)
+#   ["k"]             this side starts a key exchange: sendKexInit()
+#   ["p"]             the peer's KEXINIT arrives: ssh_KEXINIT(payload) — real negotiation of case["epochs"][round]
+#   ["y"]             the key exchange computation finished: _keySetup(sharedSecret, exchangeHash) — sends NEWKEYS
+#   ["n"]             the peer's NEWKEYS arrives: ssh_NEWKEYS(b"") — new keys taken into use, held-back messages flushed
+# The receiving transport reads the resulting stream (any segmentation); when it dispatches a KEXINIT it runs its own
+# real ssh_KEXINIT + _keySetup (same secret), when it dispatches NEWKEYS its real ssh_NEWKEYS.
+
+def _allowed_rfc(mt):
+    """RFC 4253 section 7.1 (+ RFC 8308): what may be sent while a key exchange is in progress"""
+    if 1 <= mt <= 19:
+        return mt not in (5, 6, 7)
+    if 20 <= mt <= 29:
+        return mt != 20
+    return 30 <= mt <= 49
+
+
+class _ZlibShim:
+    def __init__(self, real, ctx):
+        self.real, self.ctx = real, ctx
+
+    def compressobj(self, *a):
+        log = []
+        self.ctx["created"].append((self.ctx["who"], "comp", log))
+        return _CompProxy(self.real.compressobj(*a), log)
+
+    def decompressobj(self, *a):
+        log = []
+        self.ctx["created"].append((self.ctx["who"], "decomp", log))
+        return _DecompProxy(self.real.decompressobj(*a), log)
+
+    def __getattr__(self, n):
+        return getattr(self.real, n)
+
+
+def _wrap_out(ciph, ep):
+    oe, om = ciph.encrypt, ciph.makeMAC
+
+    def enc(x):
+        o = oe(x)
+        ep["enc"].append((bytes(x), o))
+        return o
+
+    def mac(q, x):
+        o = om(q, x)
+        ep["mac"].append((q, bytes(x), o))
+        return o
+
+    ciph.encrypt, ciph.makeMAC = enc, mac
+
+
+def _wrap_in(ciph, ep):
+    od, ov = ciph.decrypt, ciph.verify
+
+    def dec(x):
+        o = od(x)
+        ep["dec"].append((bytes(x), o))
+        return o
+
+    def ver(q, x, m):
+        o = ov(q, x, m)
+        ep["ver"].append((q, bytes(x), bytes(m), bool(o)))
+        return o
+
+    ciph.decrypt, ciph.verify = dec, ver
+
+
+def _secret(c, k):
+    h = hashlib.sha256(("kex/%d/%d" % (c.get("padseed", 0), k)).encode()).digest()
+    return b"\x00\x00\x00\x20" + h, hashlib.sha256(h).digest()
+
+
+def _restrict(t, ep):
+    t.supportedKeyExchanges = [b"curve25519-sha256"]
+    t.supportedPublicKeys = [b"ssh-ed25519", b"rsa-sha2-256"]
+    t.supportedCiphers = [ep[0].encode()]
+    t.supportedMACs = [ep[1].encode()]
+    t.supportedCompressions = [ep[2].encode()]
+
+
+def _peer_kexinit(cls, ep):
+    """a KEXINIT payload as the other side's real sendKexInit writes it for this round's algorithms"""
+    h = cls()
+    h._log = _QUIET
+    _restrict(h, ep)
+    h.makeConnection(StringTransport())
+    return h.ourKexInitPayload[1:]
+
+
+def _execute_hist(c):
+    import zlib
+    eps = [[c["cipher"], c["mac"], c["comp"]]] + [list(e) for e in c.get("epochs", [])]
+    prng = random.Random(c.get("padseed", 0))
+    randlog = []
+    real_random = transport.randbytes.secureRandom
+
+    def fake_random(n):
+        b = bytes(prng.randrange(256) for _ in range(n))
+        randlog.append(b)
+        return b
+
+    ctx = {"who": "S", "created": []}
+    res = {"exc": None}
+    scls = transport.SSHClientTransport if c.get("dir") else transport.SSHServerTransport
+    rcls = transport.SSHServerTransport if c.get("dir") else transport.SSHClientTransport
+    S, R = _mk(scls, c), _mk(rcls, c)
+    S.connectionSecure = R.connectionSecure = lambda: None
+    from cryptography.hazmat.primitives.asymmetric import x25519
+    ecn = [0]
+
+    def ec_key():     # the client's ephemeral key: deterministic, so that a case always gives the same bytes
+        ecn[0] += 1
+        return x25519.X25519PrivateKey.from_private_bytes(hashlib.sha256(b"ec/%d/%d" % (c.get("padseed", 0), ecn[0])).digest())
+
+    S._generateECPrivateKey = R._generateECPrivateKey = ec_key
+    S.outgoingPacketSequence = R.incomingPacketSequence = c["seq0"]
+
+    def new_ep(ciph, comp):
+        return {"bs": None, "ms": None, "enc": [], "mac": [], "dec": [], "ver": [], "comp": comp, "decomp": comp, "ciph": ciph}
+
+    sep = [new_ep(eps[0], "id" if eps[0][2] == "none" else [])]      # epochs as the sender goes through them
+    rep = [new_ep(eps[0], "id" if eps[0][2] == "none" else [])]      # … and the receiver
+    _wrap_out(S.currentEncryptions, sep[0])
+    _wrap_in(R.currentEncryptions, rep[0])
+    sep[0]["bs"] = S.currentEncryptions.encBlockSize
+    rep[0]["bs"], rep[0]["ms"] = R.currentEncryptions.decBlockSize, R.currentEncryptions.verifyDigestSize
+    if eps[0][2] == "zlib":
+        S.outgoingCompression = _CompProxy(zlib.compressobj(6), sep[0]["comp"])
+        R.incomingCompression = _DecompProxy(zlib.decompressobj(), rep[0]["decomp"])
+
+    ops, sent, writes = [], [], []
+    st = {"flush": False, "in": None, "round": 0, "ep": 0, "pending": None, "hop": 0}
+    real_sp, real_nk, real_ski = S.sendPacket, S._newKeys, S.sendKexInit
+
+    def sp(mt, payload):
+        before, nr = len(S.transport.value()), len(randlog)
+        real_sp(mt, payload)
+        wrote = len(S.transport.value()) - before
+        if wrote:
+            writes.append({"mt": mt, "data": bytes(payload), "pad": randlog[nr] if len(randlog) > nr else b"", "n": wrote, "ep": st["ep"]})
+        if st["flush"]:
+            return
+        sent.append((mt, bytes(payload), st["hop"]))
+        if st["in"] == "kexinit" and mt == 20:
+            st["pending"][1] = len(sent) - 1
+            st["in"] = None
+        elif st["in"] == "keysetup" and mt == 21:
+            ops.append(["y", len(sent) - 1])
+            st["in"] = None
+        else:
+            ops.append(["s", len(sent) - 1])
+
+    def ski():
+        # sendKexInit: the KEXINIT it writes belongs to the op that caused it ("k", or "p" answering the peer)
+        own = st["pending"] is None
+        if own:
+            ops.append(["k", None])
+            st["pending"] = ops[-1]
+        st["in"] = "kexinit"
+        try:
+            real_ski()
+        finally:
+            st["in"] = None
+            if own:
+                st["pending"] = None
+
+    def nk():
+        ops.append(["n"])
+        # what _newKeys is about to take into use
+        ep = new_ep(st["next"], None)
+        sep.append(ep)
+        _wrap_out(S.nextEncryptions, ep)
+        ep["bs"] = S.nextEncryptions.encBlockSize
+        st["ep"] = len(sep) - 1
+        st["flush"] = True
+        n0 = len(ctx["created"])
+        try:
+            real_nk()
+        finally:
+            st["flush"] = False
+            made = [x for x in ctx["created"][n0:] if x[1] == "comp"]
+            ep["comp"] = made[0][2] if made else "keep"
+
+    S.sendPacket, S._newKeys, S.sendKexInit = sp, nk, ski
+
+    transport.randbytes.secureRandom = fake_random
+    transport.zlib = _ZlibShim(zlib, ctx)
+    try:
+        try:
+            for hop, op in enumerate(c["hist"]):
+                k = op[0]
+                st["hop"] = hop
+                if k in ("k", "p"):
+                    ep = eps[min(st["round"] + 1, len(eps) - 1)]
+                    st["next"] = ep
+                    _restrict(S, ep)
+                if k == "s":
+                    S.sendPacket(op[1], bytes.fromhex(op[2]))
+                elif k == "k":
+                    S.sendKexInit()
+                elif k == "p":
+                    ops.append(["p", None])
+                    st["pending"] = ops[-1]
+                    try:
+                        S.ssh_KEXINIT(_peer_kexinit(rcls, ep))
+                    finally:
+                        st["pending"] = None
+                elif k == "y":
+                    st["in"] = "keysetup"
+                    try:
+                        S._keySetup(*_secret(c, st["round"]))
+                    finally:
+                        st["in"] = None
+                    st["round"] += 1
+                elif k == "n":
+                    S.ssh_NEWKEYS(b"")
+                else:
+                    raise ValueError(k)
+        except Exception as e:   # observable: the sender refused / crashed
+            res["exc"] = e
+        wire = S.transport.value()
+        ident = ident_bytes(c)
+        stream = bytearray(ident + wire)
+        tam, toff = c.get("tamper"), None
+        if tam and wire:
+            toff = len(ident) + tam[0] % len(wire)
+            stream[toff] ^= tam[1]
+        stream = bytes(stream)
+        segs = segments(stream, c.get("cuts", []))
+
+        evs = []
+        if c.get("gv"):
+            R.gotVersion = True
+        ctx["who"] = "R"
+        rst = {"round": 0}
+        real_rnk = R._newKeys
+
+        def rnk():
+            ep = new_ep(rst["next"], None)
+            rep.append(ep)
+            _wrap_in(R.nextEncryptions, ep)
+            ep["bs"], ep["ms"] = R.nextEncryptions.decBlockSize, R.nextEncryptions.verifyDigestSize
+            n0 = len(ctx["created"])
+            real_rnk()
+            made = [x for x in ctx["created"][n0:] if x[1] == "decomp"]
+            ep["decomp"] = made[0][2] if made else "keep"
+
+        R._newKeys = rnk
+
+        def dispatch(n, p):
+            evs.append("M%d:%s" % (n, hx(p)))
+            if n == 20:
+                ep = eps[min(rst["round"] + 1, len(eps) - 1)]
+                rst["next"] = ep
+                _restrict(R, ep)
+                type(R).ssh_KEXINIT(R, p)
+                R._keySetup(*_secret(c, rst["round"]))
+                rst["round"] += 1
+            elif n == 21:
+                type(R).ssh_NEWKEYS(R, p)
+
+        R.dispatchMessage = dispatch
+        osd = R.sendDisconnect
+
+        def sd(reason, desc):
+            evs.append("D%d:%s" % (reason, hx(desc)))
+            return osd(reason, desc)
+
+        R.sendDisconnect = sd
+        had = R.gotVersion
+        if res["exc"] is None:
+            try:
+                for s in segs:
+                    n0 = len(evs)
+                    R.dataReceived(s)
+                    if R.gotVersion and not had:
+                        had = True
+                        evs.insert(n0, "V:" + hx(R.otherVersionString))
+                    if R.transport.disconnecting:
+                        break
+            except Exception as e:
+                res["exc"] = e
+    finally:
+        transport.randbytes.secureRandom = real_random
+        transport.zlib = zlib
+
+    res["obs"] = "wire=%s|ev=%s|ok=1" % (hx(wire), ",".join(evs))
+    res["evs"] = evs
+    res["sent"] = sent
+    res["writes"] = writes
+    res["meta"] = {"bs": rep[0]["bs"], "ms": rep[0]["ms"], "pkts": [w["n"] for w in writes], "toff": toff, "ident": len(ident),
+                   "wire": len(wire), "nseg": len(segs), "hist": True,
+                   "wep": [w["ep"] for w in writes], "epms": [e["ms"] for e in rep], "epbs": [e["bs"] for e in sep]}
+
+    # the line for the model: the sender's history in terms of sendPacket / sendKexInit / ssh_KEXINIT / _newKeys calls, with
+    # the random padding each message got when it was written (messages are written in the order the RFC prescribes:
+    # held-back ones after NEWKEYS, in the order they were sent — pads are handed out along that order)
+    order = _expected_order(c, sent, ops)
+    pad_of = {}
+    for k, i in enumerate(order):
+        if k < len(writes):
+            pad_of[i] = writes[k]["pad"]
+
+    def msg(i):
+        mt, d, _ = sent[i]
+        return "%d:%s:%s" % (mt, hx(d), hx(pad_of.get(i, b"")))
+
+    toks = []
+    for op in ops:
+        if op[0] == "n" or op[1] is None:
+            toks.append(op[0])
+        else:
+            toks.append(op[0] + ":" + msg(op[1]))
+
+    def script(pairs, isid=False):
+        if isid:
+            return "id"
+        return ";".join(hx(i) + ":" + ("!" if o is None else hx(o)) for i, o in pairs) or "-"
+
+    def zs(v):
+        return v if isinstance(v, str) else script(v)
+
+    def sepoch(e):
+        return "/".join([str(e["bs"]), script(e["enc"], e["ciph"][0] == "none"),
+                         ";".join("%d:%s:%s" % (q, hx(x), hx(o)) for q, x, o in e["mac"] if o) or "-", zs(e["comp"])])
+
+    def repoch(e):
+        return "/".join([str(e["bs"]), str(e["ms"]), script(e["dec"], e["ciph"][0] == "none"),
+                         ";".join("%d:%s:%s:%d" % (q, hx(x), hx(m), o) for q, x, m, o in e["ver"]) or "-", zs(e["decomp"])])
+
+    # receiver epochs the receiver never reached are still announced to the model (it must not take them into use either)
+    res["line"] = " ".join([
+        "hist", str(c["seq0"]), "1" if c.get("gv") else "0", hx(ident), ",".join(toks) or "-",
+        ",".join(str(len(s)) for s in segs) or "-", "-" if toff is None else "%d:%d" % (toff, tam[1]),
+        "|".join(sepoch(e) for e in sep), "|".join(repoch(e) for e in rep)])
+    return res
+
+
+def _expected_order(c, sent, ops):
+    """indices into `sent` in the order RFC 4253 7.1 has them on the wire: while a key exchange is in progress only
+    the messages allowed during key exchange go out, the others wait for NEWKEYS and then go out in the order they
+    were sent (and, this transport taking the new keys into use only then, so does everything sent after its own NEWKEYS)"""
+    out, held, inkex, newkeys_sent = [], [], False, False
+    for op in ops:
+        if op[0] == "n":
+            out += held
+            held, inkex, newkeys_sent = [], False, False
+            continue
+        i = op[1]
+        if i is None:
+            continue
+        mt = sent[i][0]
+        if inkex and (newkeys_sent or not _allowed_rfc(mt)):
+            held.append(i)
+        else:
+            out.append(i)
+        if op[0] in ("k", "p"):
+            inkex = True
+        if op[0] == "y" and inkex:
+            newkeys_sent = True
+    return out
+
+
 def model_line(c):
     return _execute(c)["line"]
 
@@ -300,8 +693,154 @@ def _data(m):
     return bytes.fromhex(m[1]) if isinstance(m[1], str) else b"\x00" * m[1]
 
 
+
+def _hist_walk(c):
+    """The case's history read with the protocol in hand (nothing taken from the transports): for every op the key exchange
+    round in progress before / after it and whether this side's NEWKEYS is already out; whether the history is one the
+    protocol allows; the index of a sendKexInit() made while a key exchange is in progress (documented RuntimeError)."""
+    inkex, rnd, gotp, goty, gotn = False, 0, False, False, False
+    info, valid, misuse = [], True, None
+    for i, op in enumerate(c["hist"]):
+        k = op[0]
+        before = rnd if inkex else None
+        sent_nk = goty and inkex
+        if k == "s":
+            if op[1] in (20, 21):
+                valid = False     # KEXINIT / NEWKEYS are the transport's business
+        elif k == "k":
+            if inkex:
+                misuse = i
+                info.append((before, before, sent_nk))
+                break
+            inkex, gotp, goty, gotn = True, False, False, False
+        elif k == "p":
+            if inkex and gotp:
+                valid = False
+            if not inkex:
+                inkex, goty, gotn = True, False, False
+            gotp = True
+        elif k == "y":
+            if not (inkex and gotp) or goty:
+                valid = False
+            goty = True
+        elif k == "n":
+            if not (inkex and gotp) or gotn:
+                valid = False
+            if not goty and not c.get("dir"):
+                valid = False     # the peer of a server sends NEWKEYS only after it has seen the server's
+            gotn = True
+        else:
+            valid = False
+        after = rnd if inkex else None
+        info.append((before, after, sent_nk))
+        if inkex and goty and gotn:
+            inkex, gotp, goty, gotn = False, False, False, False
+            rnd += 1
+    return info, valid, misuse, (rnd if inkex else None)
+
+
+def _oracle_hist(c, out, r):
+    info, valid, misuse, open_round = _hist_walk(c)
+    if out.startswith("!raised"):
+        if misuse is not None and out == "!raised RuntimeError":
+            return None       # sendKexInit documents it
+        if not valid:
+            return None
+        return {"key": "kex-raised", "detail": f"{out} for the history {c['hist']} (dir={c.get('dir')})"}
+    if not valid or misuse is not None or not _ident_ok(c):
+        return None
+    meta, evs, sent, writes = r["meta"], r["evs"], r["sent"], r["writes"]
+    for w in writes:
+        if w["n"] - meta["epms"][min(w["ep"], len(meta["epms"]) - 1)] - 4 > LIMIT:
+            return None
+    exp0 = []
+    if not c.get("gv"):
+        exp0 = ["V:" + hx(bytes.fromhex(c["version"]).rstrip(b"\r"))]
+        if evs[:1] != exp0:
+            return {"key": "ident", "detail": f"ident={ident_bytes(c)!r} cuts={c.get('cuts')} got {evs[:3]}"}
+    got = evs[len(exp0):]
+    toff = meta["toff"]
+    if toff is not None:
+        # one byte altered: what was written before the altered packet is delivered, the altered one never, then a disconnect
+        if toff < meta["ident"]:
+            return None
+        off, j = toff - meta["ident"], 0
+        while off >= writes[j]["n"]:
+            off -= writes[j]["n"]
+            j += 1
+        if any(e[1] == "none" for e in [[c["cipher"], c["mac"]]] + [list(x) for x in c.get("epochs", [])]):
+            return None
+        exp = ["M%d:%s" % (w["mt"], hx(w["data"])) for w in writes[:j]]
+        got_m = [e for e in got if not e.startswith("D")]
+        got_d = [e for e in got if e.startswith("D")]
+        if got_m != exp[:len(got_m)] or len(got_m) > len(exp):
+            return {"key": "tamper-delivered", "detail": f"byte {off} of packet {j} altered: dispatched {got_m[len(exp):][:2]}"}
+        if len(got_m) < len(exp):
+            return {"key": "delivery", "detail": f"packets before the altered one not delivered: {evs[-3:]}"}
+        bs = meta["epbs"][min(writes[j]["ep"], len(meta["epbs"]) - 1)]
+        if not got_d and off >= bs:
+            return {"key": "tamper-undetected", "detail": f"byte {off} of packet {j} altered, no disconnect"}
+        if got_d and got[-1] != got_d[0]:
+            return {"key": "tamper-delivered", "detail": f"events after the disconnect: {evs[-3:]}"}
+        return None
+
+    hist_txt = f"history {c['hist']} dir={c.get('dir')} {c['cipher']}/{c['mac']}/{c['comp']} -> {c.get('epochs')}"
+    ds = [e for e in got if e.startswith("D")]
+    if ds:
+        return {"key": "kex-disconnect", "detail": f"the peer disconnected ({bytes.fromhex(ds[0].split(':')[1].replace('-', ''))!r}) "
+                                                     f"after {len(got) - 1} of {len(sent)} payloads: " + hist_txt}
+
+    def rnd(i):
+        mt, _, hop = sent[i]
+        before, after, _ = info[hop]
+        return before if (mt == 20 or c["hist"][hop][0] not in ("k", "p")) else after
+
+    def after_own_newkeys(i):
+        mt, _, hop = sent[i]
+        return info[hop][2] or (c["hist"][hop][0] == "y" and mt != 21)
+
+    # every delivered payload is one that was sent (each at most once) …
+    pos, used = {}, set()
+    for k, e in enumerate(got):
+        for i, (mt, d, _) in enumerate(sent):
+            if i not in used and e == "M%d:%s" % (mt, hx(d)):
+                used.add(i)
+                pos[i] = k
+                break
+        else:
+            return {"key": "kex-spurious", "detail": f"delivered {e[:40]} (event {k}) which was not sent (or not that often): " + hist_txt}
+    # … every sent payload is delivered, except what the protocol holds back while the last key exchange is unfinished …
+    for i, (mt, d, _) in enumerate(sent):
+        if i in pos:
+            continue
+        if open_round is not None and rnd(i) == open_round and (not _allowed_rfc(mt) or after_own_newkeys(i)):
+            continue
+        return {"key": "kex-lost", "detail": f"payload {i} (type {mt}, {hx(d)[:24]}) was never delivered: " + hist_txt}
+    # … in the order they were sent; only a message that is allowed during key exchange may overtake payloads that are
+    # held back by that same key exchange (RFC 4253 7.1)
+    idx = sorted(pos)
+    for a in range(len(idx)):
+        for b in range(a + 1, len(idx)):
+            i, j = idx[a], idx[b]
+            if pos[j] < pos[i]:
+                ok = (rnd(i) is not None and rnd(i) == rnd(j) and _allowed_rfc(sent[j][0])
+                      and (not _allowed_rfc(sent[i][0]) or after_own_newkeys(i)))
+                if not ok:
+                    return {"key": "kex-order", "detail": f"payload {j} (type {sent[j][0]}, {hx(sent[j][1])[:16]}) delivered before payload "
+                                                           f"{i} (type {sent[i][0]}, {hx(sent[i][1])[:16]}) which was sent earlier: " + hist_txt}
+    # a payload that may not be sent during key exchange is not delivered between the peer's KEXINIT and NEWKEYS
+    for i in pos:
+        if rnd(i) is not None and not _allowed_rfc(sent[i][0]):
+            nk = [pos[j] for j in pos if sent[j][0] == 21 and rnd(j) == rnd(i)]
+            if not nk or pos[i] < nk[0]:
+                return {"key": "kex-not-held", "detail": f"payload {i} (type {sent[i][0]}) sent during key exchange was delivered before NEWKEYS: " + hist_txt}
+    return None
+
+
 def oracle(c, out):
     r = _execute(c)
+    if "hist" in c:
+        return _oracle_hist(c, out, r)
     meta = r["meta"]
     if out.startswith("!raised"):
         if c["seq0"] + len(c["msgs"]) > 2**32 and c["mac"] != "none":
@@ -384,7 +923,80 @@ def corpus():
         _base(tamper=[0, 1]), _base(tamper=[4, 255]), _base(tamper=[20, 1]), _base(tamper=[33, 128], cipher="3des-cbc", mac="hmac-md5"),
         _base(comp="zlib", tamper=[7, 2], mac="none"), _base(comp="zlib", msgs=[[94, 300], [94, 300]], tamper=[30, 2], mac="none", cipher="none"),
         _base(msgs=[[94, ""], [1, ""], [255, "00"]], cuts=[1] * 200),
+    ] + _hist_corpus()
+
+
+
+E1 = ["aes256-cbc", "hmac-sha1", "zlib"]
+E2 = ["3des-cbc", "hmac-sha2-512", "none"]
+
+
+def _h(hist, **kw):
+    kw.setdefault("epochs", [E1, E2])
+    return _base(msgs=[], hist=hist, **kw)
+
+
+def _hist_corpus():
+    S = lambda t, d: ["s", t, d]    # noqa: E731
+    K, P, Y, N = ["k"], ["p"], ["y"], ["n"]
+    return [
+        # payloads sent while a re-key is in flight are held back and delivered in the order they were sent
+        # (>= 2 held back: seeded change C35-2 reversed them), re-key started by this side / by the peer, both roles
+        _h([S(94, "aa"), K, S(94, "b1"), S(94, "b2"), S(95, "b3"), P, S(94, "b4"), Y, S(96, "b5"), N, S(97, "cc")]),
+        _h([S(94, "aa"), P, S(94, "b1"), S(94, "b2"), Y, S(5, "b3"), S(94, ""), N, S(97, "cc")], dir=1, cuts=[1] * 2000),
+        _h([K, P, S(94, "b1"), S(94, "b1"), S(94, "b2"), Y, N], dir=1, comp="zlib", epochs=[E2]),
+        # messages allowed during key exchange overtake the held-back ones, not each other
+        _h([S(94, "aa"), K, S(94, "b1"), S(2, "c1"), S(4, "c2"), P, S(94, "b2"), S(35, "c3"), Y, N, S(2, "c4")]),
+        # found on the unchanged tree (fixed): a message allowed during key exchange sent between our NEWKEYS and the
+        # peer's was encrypted with the old keys while the peer already expected the new ones
+        _h([S(94, "aa"), K, P, S(94, "b1"), Y, S(2, "1234"), S(94, "b2"), N, S(97, "ff")]),
+        _h([P, Y, S(4, "0100000000"), N, S(94, "ff")], dir=1, cipher="none", mac="none"),
+        # found on the unchanged tree (fixed): a client that got NEWKEYS before its keys were ready (asynchronous host key
+        # check) remembered that for ever and took the keys of the next exchange into use without waiting
+        _h([P, N, Y, S(94, "aa"), K, P, Y, S(94, "bb"), N, S(94, "cc")], dir=1),
+        _h([P, S(94, "a0"), N, S(94, "a1"), S(2, "a2"), Y, S(94, "aa"), P, S(94, "b1"), S(94, "b2"), N, S(2, "b3"), Y, S(94, "cc")], dir=1),
+        # the first key exchange of a connection (nothing encrypted yet), three exchanges in a row, compression kept when
+        # the new algorithm is `none`, history ending in the middle of an exchange, sendKexInit during an exchange
+        _h([K, S(5, "0000000c7373682d7573657261757468"), P, Y, S(94, "b2"), N, S(94, "cc")], cipher="none", mac="none", dir=1),
+        _h([K, P, Y, N, S(94, "aa"), P, S(94, "b1"), Y, N, K, S(94, "c1"), S(94, "c2"), P, Y, N, S(94, "dd")], epochs=[E1, E2, ["aes128-ctr", "hmac-md5", "zlib"]]),
+        _h([S(94, "aa" * 40), K, P, S(94, "aa" * 40), S(94, "aa" * 40), Y, N, S(94, "aa" * 40)], comp="zlib", epochs=[E2], cuts=[7] * 400),
+        _h([S(94, "aa"), K, S(94, "b1"), S(2, "c1"), P, S(94, "b2"), Y, S(3, "00000001")]),
+        _h([S(94, "aa"), K, S(94, "b1"), K, S(94, "b2")]),
+        _h([S(94, "aa"), K, S(94, "b1"), S(94, "b2"), P, Y, N, S(94, "cc")], tamper=[700, 4]),
     ]
+
+
+def _hist(rng, client):
+    S_DEFER = [94, 94, 94, 94, 90, 95, 50, 52, 80, 255, 100, 0, 5, 6, 7]
+    S_ALLOW = [2, 2, 4, 3, 1, 30, 31, 49, 22, 29, 19, 8]
+
+    def data():
+        k = rng.choice([0, 1, 1, 2, 3, 5, 11, 12, 27, rng.randint(0, 40), rng.choice([100, 300])])
+        return (bytes([rng.randrange(256)]) * k if rng.random() < 0.5 else bytes(rng.randrange(256) for _ in range(k))).hex()
+
+    def sends(lo, hi, pa=0.25):
+        return [["s", rng.choice(S_ALLOW if rng.random() < pa else S_DEFER), data()] for _ in range(rng.randint(lo, hi))]
+
+    h = sends(0, 2, 0.2)
+    for _ in range(rng.choice([1, 1, 1, 2, 2, 3])):
+        if rng.random() < 0.5:
+            h += [["k"]] + sends(0, 3) + [["p"]]
+        else:
+            h += [["p"]]
+        h += sends(0, 3)
+        if client and rng.random() < 0.3:
+            h += [["n"]] + sends(0, 2) + [["y"]]
+        else:
+            h += [["y"]] + sends(0, 3, 0.4) + [["n"]]
+        h += sends(0, 2, 0.2)
+    r = rng.random()
+    if r < 0.12:      # ends in the middle of a key exchange
+        ks = [i for i, op in enumerate(h) if op[0] in ("p", "y")]
+        h = h[: rng.choice(ks) + 1] + sends(0, 2)
+    elif r < 0.15:    # sendKexInit() while a key exchange is in progress
+        ks = [i for i, op in enumerate(h) if op[0] in ("p",)]
+        h.insert(rng.choice(ks) + 1, ["k"])
+    return h
 
 
 def _ident(rng):
@@ -475,6 +1087,26 @@ def generate(rng, tier):
             c["banner"], c["version"], c["eol"] = _ident(rng)
         else:
             c["gv"] = 1
+        if i % 5 in (1, 3):
+            # key (re-)exchange on the sending side while payloads are being sent
+            c["msgs"] = []
+            if rng.random() < 0.15:
+                c["cipher"], c["mac"], c["comp"] = "none", "none", "none"      # the first key exchange of a connection
+            c["epochs"] = [[rng.choice(CIPHERS), rng.choice(MACS), rng.choice(COMPS)] for _ in range(3)]
+            if rng.random() < 0.6:
+                c["epochs"] = [[e[0], e[1] if e[1] != "none" else "hmac-sha2-256", e[2]] for e in c["epochs"]]
+            c["seq0"] = rng.choice([0, 3, 3, rng.randrange(2**32), 2**32 - 2, 2**32 - 5])
+            c["hist"] = _hist(rng, c["dir"])
+            c["cuts"] = []
+            c["cuts"], c["style"] = _cuts(rng, c)
+            ex = _execute(dict(c, cuts=[], tamper=None))
+            if rng.random() < 0.15 and ex["writes"] and c["mac"] != "none" and all(e[1] != "none" for e in c["epochs"]):
+                pk = ex["meta"]["pkts"]
+                j = rng.randrange(len(pk))
+                off = rng.choice([0, 3, 4, 5, 7, 8, 15, 16, pk[j] - 1, pk[j] - 12, rng.randrange(pk[j])])
+                c["tamper"] = [sum(pk[:j]) + max(0, min(pk[j] - 1, off)), rng.choice([1, 2, 128, 255, rng.randrange(1, 256)])]
+            yield c
+            continue
         c["msgs"] = _msgs(rng, bs)
         c["cuts"] = []
         c["cuts"], c["style"] = _cuts(rng, c)
@@ -505,6 +1137,22 @@ def search(rng, tier, disagreeing):
 def shrink(c):
     if c.get("tamper"):
         yield dict(c, tamper=None)
+    if "hist" in c:
+        h = c["hist"]
+        for i in range(len(h)):
+            yield dict(c, hist=h[:i] + h[i + 1:])
+        for i, op in enumerate(h):
+            if op[0] == "s" and len(op[2]) > 2:
+                yield dict(c, hist=h[:i] + [["s", op[1], op[2][: (len(op[2]) // 4) * 2]]] + h[i + 1:])
+            if op[0] == "s" and op[1] not in (94, 2):
+                yield dict(c, hist=h[:i] + [["s", 94 if not _allowed_rfc(op[1]) else 2, op[2]]] + h[i + 1:])
+        e = c.get("epochs", [])
+        if len(e) > 1:
+            yield dict(c, epochs=e[:-1])
+        for i, x in enumerate(e):
+            for k, v in ((2, "none"), (0, "aes128-ctr"), (1, "hmac-sha1")):
+                if x[k] != v:
+                    yield dict(c, epochs=e[:i] + [x[:k] + [v] + x[k + 1:]] + e[i + 1:])
     for i in range(len(c["msgs"])):
         yield dict(c, msgs=c["msgs"][:i] + c["msgs"][i + 1:])
     for i, m in enumerate(c["msgs"]):
@@ -537,8 +1185,33 @@ def shrink(c):
         yield {k: v for k, v in c.items() if k != "style"}
 
 
+def _tag_hist(c, out, r):
+    meta = r["meta"]
+    info, valid, misuse, open_round = _hist_walk(c)
+    ops = [op[0] for op in c["hist"]]
+    held, cur, inflight = [], 0, False
+    for op in c["hist"]:
+        if op[0] in ("k", "p"):
+            inflight = True
+        elif op[0] == "s" and inflight and not _allowed_rfc(op[1]):
+            cur += 1
+        elif op[0] == "n":
+            held.append(cur)
+            cur, inflight = 0, False
+    who = "".join(o for o in ops if o in "kpyn")[:8]
+    ck = "none" if c["cipher"] == "none" else c["cipher"].split("-")[1] + str(meta["bs"])
+    idt = "gv" if c.get("gv") else "b%d" % min(len(c.get("banner", [])), 2)
+    seg = "1" if meta["nseg"] <= 1 else "few" if meta["nseg"] < 8 else "many"
+    ds = [e.split(":")[0] for e in r["evs"] if e.startswith("D")]
+    outc = "raise" if out.startswith("!") else (ds[0] if ds else "ok")
+    return (f"H:{c.get('dir', 0)}:{ck}:{c['mac']}:{c['comp']}:{who}:{'v' if valid else 'x'}:{'open' if open_round is not None else '-'}:"
+            f"{min(max(held + [cur]), 3)}:{idt}:{seg}:{'t' if meta['toff'] is not None else '-'}:{outc}")
+
+
 def tag(c, out):
     r = _execute(c)
+    if "hist" in c:
+        return _tag_hist(c, out, r)
     meta = r["meta"]
     ck = "none" if c["cipher"] == "none" else c["cipher"].split("-")[1] + str(meta["bs"])
     idt = "gv" if c.get("gv") else "b%d" % min(len(c.get("banner", [])), 2)
